@@ -124,6 +124,7 @@ class Env:
             s.res['steps'] += w.vm.stats['steps'] - s0
         s.res['funcs'] = sorted(set(s.res['funcs']) | {f for f in w.vm.stats['funcs']})
         s.res['externs'] = sorted(w.vm.stats['ext_calls'])
+        s.res['addr_dep'] = sorted(set(w.vm.stats.get('addr_dep', [])))
         s._stat0 = (w.vm.solver.queries, w.vm.solver.time, w.vm.stats['paths'], w.vm.stats['steps'])
 
     def cover(s, name, hit):
